@@ -182,3 +182,10 @@ Theorem twin_gas_normfactors_equal :
 Proof. exact C07.ProofsTwin.twin_gas_normfactors_equal. Qed.
 Print Assumptions twin_gas_normfactors_equal.
 
+
+(* the hypotheses of the conditional statements are satisfiable by ordinary operating points: a flowing branch (|m| = 1/2 kg/s
+   is above both masks), a branch at rest (m = 0), absolute end pressures 4.01 / 3.01 bar *)
+Example twin_guards_example :
+  1 / 100000000 < Rabs (1 / 2) /\ ((0 : R) = 0 \/ 1 / 10000000000 < Rabs 0) /\
+  (101 / 100 + 3) + (101 / 100 + 2) <> 0.
+Proof. rewrite (Rabs_right (1 / 2)) by lra. split; [lra | split; [left; reflexivity | lra]]. Qed.
